@@ -68,6 +68,12 @@ func (it *Interp) osCall(name string, args []Val) Val {
 	case "Remove":
 		delete(it.files, "file:"+nm)
 		return Iface{}
+	case "Stat":
+		f, ok := it.files["file:"+nm]
+		if !ok {
+			return Tuple{Iface{}, it.osErr("stat " + nm + ": no such file or directory")}
+		}
+		return Tuple{Iface{T: &opaqueType{"fileinfo"}, V: &Opaque{Kind: "fileinfo", V: f}}, Iface{}}
 	case "Truncate":
 		f, ok := it.files["file:"+nm]
 		if !ok {
